@@ -281,6 +281,18 @@ impl Monitor for C13 {
             }
             // reduce-only collateral counts for maintenance only, so it can only help
             let tol = (&ia + &il + qi(1)) * model::ulp() * qi(64);
+            // at equal prices the initial leg can never value the collateral above, or the debt
+            // below, the maintenance leg (every accepted weight pair is ordered, and the e-mode merge
+            // of ordered pairs is ordered)
+            if ia > &ma + &tol || &il + &tol < ml {
+                out.push(viol(
+                    "C13",
+                    "initial_leg_more_generous_than_maintenance_leg_at_equal_prices",
+                    &crate::sim::tx_tag(s.tx),
+                    format!("account {k}: init assets {} liabs {} maint assets {} liabs {}", q_str(&ia), q_str(&il), q_str(&ma), q_str(&ml)),
+                    idx,
+                ));
+            }
             if ia >= il && il > qi(0) && ma + &tol < ml {
                 out.push(viol(
                     "C13",
